@@ -997,6 +997,11 @@ func (e *daemonEngine) finalChecks(healAt time.Time, res *RunResult) {
 		if len(tts) > 1 {
 			facts = "members-hold-different-transition-times"
 		}
+		for _, ep := range cc.epochs {
+			if ep.membersDiffer {
+				facts = "members-hold-groups-with-different-member-sets"
+			}
+		}
 		for i, h := range heads {
 			if time.Since(e.nodes[i].since) < bound {
 				continue
